@@ -42,7 +42,7 @@ import (
 	"github.com/dadrus/heimdall/internal/rules/mechanisms/template"
 	"github.com/dadrus/heimdall/internal/x"
 	"github.com/dadrus/heimdall/internal/x/errorchain"
-	"github.com/dadrus/heimdall/internal/x/stringx"
+	"github.com/dadrus/heimdall/internal/x/hashx"
 )
 
 // by intention. Used only during application bootstrap
@@ -476,8 +476,9 @@ func (a *oauth2IntrospectionAuthenticator) getCacheTTL(introspectResp *oauth2.In
 func (a *oauth2IntrospectionAuthenticator) calculateCacheKey(ep *endpoint.Endpoint, templatedURL, token string) string {
 	digest := sha256.New()
 	digest.Write(ep.Hash())
-	digest.Write(stringx.ToBytes(templatedURL))
-	digest.Write(stringx.ToBytes(token))
+	// the URL may be rendered using the issuer claimed by the token. It must
+	// not run into the token, which is not verified yet
+	hashx.WriteStrings(digest, templatedURL, token)
 
 	// the ttl can be redefined on the rule level. An entry stored by an instance with a longer
 	// ttl must not be used by an instance configured with a shorter one beyond that ttl
